@@ -41,10 +41,39 @@ func (l *local) flush() {
 
 // ---------------------------------------------------------------- C03
 
+// foldTwin returns a string that is equal to s under Unicode case folding but is another string with, in general,
+// another verdict: ASCII letters change case ("xn--" is an ACE prefix, "XN--" is not), k and s become the Kelvin sign
+// and the long s (non-ASCII: the label is converted).
+func foldTwin(s string, n int64) string {
+	b := []byte(s)
+	for i, c := range b {
+		if ('a' <= c && c <= 'z') || ('A' <= c && c <= 'Z') {
+			b[i] = c ^ 0x20
+		}
+	}
+	t := string(b)
+	if n%2 == 1 {
+		t = strings.NewReplacer("k", "\u212a", "K", "\u212a", "s", "\u017f", "S", "\u017f").Replace(s)
+	}
+	return t
+}
+
 func c03Case(r *mon.Run, l *local, s string) {
 	want := ref.Names(s)
+	// the verdict on s depends on s alone - not on what was validated just before: one of the three calls (all three
+	// in a replay) comes right after a call with a fold-equal twin of s
+	prime := func(i int64) {
+		if l.fam == "replay" || l.evals/3%3 == i {
+			if t := foldTwin(s, l.evals/3); t != s {
+				_ = netutil.ValidateDomainName(t)
+			}
+		}
+	}
+	prime(0)
 	errH := netutil.ValidateHostname(s)
+	prime(1)
 	errD := netutil.ValidateDomainName(s)
+	prime(2)
 	errS := netutil.ValidateSRVDomainName(s)
 	got := ref.NameVerdict{Host: errH == nil, SRV: errS == nil, Domain: errD == nil}
 	l.evals += 3
@@ -88,6 +117,8 @@ func TestC03(t *testing.T) {
 			t.Fatal(err)
 		}
 		l := &local{r: r, key: "accepted", fam: "replay"}
+		c03Case(r, l, rc.S)
+		l.evals = 3 // the other kind of fold twin
 		c03Case(r, l, rc.S)
 		l.flush()
 		r.NontrivialN(2)
